@@ -9,7 +9,7 @@ require (
 	github.com/sbinet/npyio v0.8.0 // indirect
 	github.com/spf13/cast v1.5.1 // indirect
 	golang.org/x/exp v0.0.0-20230321023759-10a507213a29 // indirect
-	gonum.org/v1/gonum v0.14.0 // indirect
+	gonum.org/v1/gonum v0.14.0
 	gopkg.in/yaml.v3 v3.0.1 // indirect
 )
 
